@@ -34,12 +34,16 @@ from .rsscan import RustFile, ScanError
 
 RULES = [
     "R1 drop: doc comments, #[...] attributes (derive, inline, logos token/regex attributes), #[cfg(test)] modules",
+    "R1b re-emit `#[derive(..)]` for traits the source item derives when a body needs them (Debug for `{:?}`, Hash/Eq for map keys); add Verus' `Structural` "
+    "marker only when the source derives both PartialEq and Eq (derived equality is structural by construction)",
     "R2 widen visibility of extracted items and their fields to `pub` (Verus open spec fns must see fields)",
     "R3 splice contract clauses between signature and body; name the return value `-> (r: T)`; insert loop invariant/decreases "
     "clauses in front of the body of the loop selected by ordinal; insert ghost proof blocks (proof { .. } / assert) in front of an anchored statement",
     "R4 desugar break-with-value (Verus has none): a `loop` that is the sole tail expression of the function body and contains no nested loop or closure "
     "becomes `let __ret: T; loop { .. }; __ret` with each `break <e>` replaced by `{ __ret = <e>; break; }`; refused (exit 2) if the side condition does not hold",
     "R5 a LALRPOP action expression is wrapped as the body of `fn <rule>_action(tok: &str) -> T` with `<>` replaced by `tok`",
+    "R8 the initializer expression of a named `let` statement inside a function body may be copied and wrapped as the body of a function whose "
+    "parameters are the free variables of that expression (used for the kernels of host operations whose enclosing function uses slice patterns)",
     "R6 a trait-impl method may be emitted inside an inherent impl (Verus forbids requires on trait impls); its text is unchanged",
     "R7 `Self::` / `Self` may be replaced by the concrete type name when a method is lifted out of its impl (option self_ty)",
 ]
@@ -161,6 +165,12 @@ def extract_type(repo, spec, ex):
     if keep:
         orig = f.src[max(0, istart - 400):istart] + f.src[istart:iend]
         for tr in [x.strip() for x in keep.split(',')]:
+            if tr == 'Structural':
+                # Verus marker: `==` is structural. Emitted only if the source derives BOTH PartialEq and Eq (then it is, by construction).
+                pre = f.src[max(0, istart - 400):istart]
+                if not (re.search(r'#\[derive\([^)]*\bPartialEq\b', pre) and re.search(r'#\[derive\([^)]*\bEq\b', pre)):
+                    raise ExtractError(f'{spec}: Structural needs derived PartialEq + Eq in the source')
+                continue
             if not re.search(r'#\[derive\([^)]*\b' + re.escape(tr) + r'\b', f.src[max(0, istart - 400):istart]):
                 raise ExtractError(f'{spec}: source item does not derive {tr}')
         text = f'#[derive({keep})]\n' + text
@@ -414,6 +424,38 @@ def extract_fn(repo, header, contract, ex, body_only=False):
     return sig + '\n' + (contract or '').rstrip() + '\n' + body2
 
 
+def extract_let(repo, spec, ex):
+    """`<file> :: ... :: fn f :: let <name>` -> the initializer expression of the first `let <name> = <expr>;` in f's body (rule R8)."""
+    rel, sels = _parse_path(spec)
+    f = _file(repo, rel)
+    m = re.match(r'let\s+(\w+)$', sels[-1])
+    if not m:
+        raise ExtractError(f'bad let selector {sels[-1]!r}')
+    var = m.group(1)
+    try:
+        kind, name, istart, hend, iend = f.locate(sels[:-1])
+    except ScanError as e:
+        raise ExtractError(f'lost anchor: {rel} :: {" :: ".join(sels[:-1])}: {e}')
+    body_m = f.msk[hend:iend]
+    lm = re.search(r'\blet\s+(?:mut\s+)?' + re.escape(var) + r'\s*(?::[^=;]+)?=(?!=)', body_m)
+    if not lm:
+        raise ExtractError(f'lost anchor: `let {var} =` not found in {" :: ".join(sels[:-1])}')
+    k = lm.end()
+    depth = 0
+    while k < len(body_m):
+        ch = body_m[k]
+        if ch in '([{':
+            depth += 1
+        elif ch in ')]}':
+            depth -= 1
+        elif ch == ';' and depth == 0:
+            break
+        k += 1
+    expr = f.src[hend + lm.end():hend + k].strip()
+    ex.items.append(dict(kind='let-expr', source=rel, selector=' :: '.join(sels), sha=_sha(expr), name=f'{name}::{var}'))
+    return expr
+
+
 def extract_lalrpop_action(repo, spec, ex):
     """spec: `<file> :: rule <Rule> :: action <k>` -> the k-th alternative's action expression of the rule.
     Handles both `Rule: T = { alt, alt };` and the single-alternative form `Rule: T = symbols => action;`."""
@@ -487,7 +529,7 @@ def extract_lalrpop_action(repo, spec, ex):
     return dict(symbols=symbols, action=action.replace('<>', param), fallible=fallible, result_type=ty, param=param)
 
 
-_DIR = re.compile(r'/\*@(type|macro|fn|body|expr|action)\b(.*?)@\*/', re.S)
+_DIR = re.compile(r'/\*@(type|macro|fn|body|expr|action|let)\b(.*?)@\*/', re.S)
 
 
 def build_unit(repo, template_text):
@@ -509,6 +551,8 @@ def build_unit(repo, template_text):
             out.append(extract_macro(repo, arg.strip(), ex))
         elif kind == 'body':
             out.append(extract_fn(repo, arg, None, ex, body_only=True))
+        elif kind == 'let':
+            out.append(extract_let(repo, arg.strip(), ex))
         elif kind == 'expr':
             d = extract_lalrpop_action(repo, arg.strip(), ex)
             out.append(d['action'])
